@@ -154,3 +154,73 @@ func c10Dispatch(nmsg int, freeCut bool) {
 
 func C10Dispatch()     { c10Dispatch(2, false) }
 func C10DispatchDeep() { c10Dispatch(3, true) }
+
+// C10DispatchFull: two handlers select the same calls; the first one's queue is small and fills up:
+// the second one (whose queue has room) must still receive every message, in order.
+func C10DispatchFull() {
+	s := newZZStream()
+	e := NewEndPoint(s)
+	small := make(chan *Message, 1)
+	big := make(chan *Message, 8)
+	e.MakeHandler(func(h *Header) (bool, bool) { return true, true }, small, nil)
+	e.MakeHandler(func(h *Header) (bool, bool) { return true, true }, big, nil)
+	var sent []Message
+	for i := 0; i < 3; i++ {
+		m := zzSymMessage("in", 0)
+		sent = append(sent, m)
+		s.inject(m)
+	}
+	sym.Quiesce()
+	e.Close()
+	sym.Quiesce()
+	var got []*Message
+	for m := range big {
+		got = append(got, m)
+	}
+	sym.Assert(len(got) == 3, "handler-with-room-missed-message")
+	for i := 0; i < len(got) && i < 3; i++ {
+		sym.Assert(zzSameMessage(*got[i], sent[i]), "handler-with-room-wrong-message-or-order")
+	}
+	n := 0
+	for range small {
+		n++
+	}
+	sym.Assert(n == 1, "full-handler-count")
+	sym.Reach("dispatch-full-done")
+}
+
+// C10SendersLarge: two senders, one message each, one of them with a large (70000-byte) payload:
+// the wire still carries two intact messages.
+func C10SendersLarge() {
+	sym.SetMaxMaterialise(1 << 18)
+	s := newZZStream()
+	e := NewEndPoint(s)
+	big := make([]byte, 70000)
+	big[0], big[69999] = sym.U8("first"), sym.U8("last")
+	m1 := NewMessage(NewHeader(Call, sym.U32("s1"), 1, 1, 1), big)
+	m2 := NewMessage(NewHeader(Call, sym.U32("s2"), 1, 1, 2), []byte{sym.U8("small")})
+	done := make(chan bool, 2)
+	go func() { sym.Assert(e.Send(m1) == nil, "send-ok"); done <- true }()
+	go func() { sym.Assert(e.Send(m2) == nil, "send-ok"); done <- true }()
+	<-done
+	<-done
+	r := bytes.NewReader(s.sent())
+	seen1, seen2 := false, false
+	for r.Len() > 0 {
+		var got Message
+		err := got.Read(r)
+		sym.Assert(err == nil, "stream-corrupted")
+		if err != nil {
+			return
+		}
+		if got.Header.ID == 1 {
+			sym.Assert(!seen1 && zzSameMessage(got, m1), "large-message-altered")
+			seen1 = true
+		} else {
+			sym.Assert(!seen2 && zzSameMessage(got, m2), "small-message-altered")
+			seen2 = true
+		}
+	}
+	sym.Assert(seen1 && seen2, "message-lost")
+	sym.Reach("large-done")
+}
